@@ -79,8 +79,14 @@ variable (cmp : K → K → Ordering)
 
 def keyOf (e : Entry K V) : K := e.key
 
-/-- `qtreetbl_putobj` (name and namesize valid). `isEmpty v`: `qmemdup(data, 0)` is NULL, in
-    which case an existing value is kept. -/
+/-- the current source replaces the value of an existing key by ANY new value (also an empty
+    one); the pinned tree kept the old value when the new one was empty (`qmemdup(data, 0)` is
+    NULL) - repaired, see known_findings.txt -/
+def replaceAlways : V → Bool := fun _ => false
+
+/-- `qtreetbl_putobj` (name and namesize valid). `isEmpty v`: put of `v` over an existing key
+    keeps the old value. The theorems hold for every such predicate; the code is the instance
+    `replaceAlways` (used by `putobjF`, the driver and the property theorems). -/
 def Tbl.putobj (isEmpty : V → Bool) (s : Tbl K V) (k : K) (v : V) : Except Fault (Tbl K V × Bool) := do
   let new : Entry K V := { key := k, val := v, id := s.fresh }
   let onDup := fun (e : Entry K V) => if isEmpty v then e else { e with val := v }
